@@ -1,5 +1,671 @@
-//! C05 - monitor not built yet.
-fn main() {
-    println!("INCONCLUSIVE property=C05 monitor not built yet");
-    std::process::exit(2);
+//! C05 - Concurrent writers serialize: nothing lost, nothing doubled, state converges.
+//! Sets of 2-4 concurrent operations (same-document and different-document mixes, stripe-sharing
+//! ids, adds, extensions, flush, compaction, reads) over a pre-populated, pre-flushed collection
+//! run under controlled schedules: every backend call of every task is a scheduling point
+//! (gated RecStore + manual polling; DFS within a budget, random schedules beyond). Oracles:
+//!  1. the mutations' return values are explained by a total order that respects real time
+//!     (brute-force search over permutations of <= 4 operations against a sequential model);
+//!  2. reads that overlap writers return whole documents some call wrote, never older than the
+//!     last write that returned before the read was called;
+//!  3. once all calls returned, documents, indexes and counts equal the result of that order
+//!     (full C02 audit);
+//!  4. at the moment a concurrent flush returns the backend is snapshotted; reopening the
+//!     snapshot yields the state after the mutations that had returned by then (which must form
+//!     a prefix of a valid order) and passes the audit.
+//! A multi-threaded stress variant (S-mt) runs larger operation counts on a multi-thread runtime
+//! with the same convergence audit.
+
+use anda_db::query::{Filter, RangeQuery};
+use anda_db::schema::Fv;
+use std::collections::{BTreeMap, BTreeSet};
+use std::sync::Arc;
+use v_db::audit::{AuditCtx, audit};
+use v_db::driver::{Driver, Op, Step};
+use v_db::{Cfg, FDoc, IndexSet, Model, Patch, apply_patch, connect, gen_doc, gen_patch, open_coll};
+use vcore::manual::{Chooser, DfsChooser, ManualExec, RandChooser, Stuck, drive};
+use vcore::recstore::RecStore;
+use vcore::run::block_on;
+use vcore::{Rng, Run, Stats, Value, json};
+
+#[derive(Clone, Debug)]
+enum COp {
+    Add(FDoc),
+    Update(u64, Patch),
+    Remove(u64),
+    Get(u64),
+    Query(String),
+    SaveExt(String, u64),
+    RemoveExt(String),
+    Flush,
+    Compact,
 }
+
+impl COp {
+    fn is_mutation(&self) -> bool {
+        matches!(self, COp::Add(_) | COp::Update(..) | COp::Remove(_) | COp::SaveExt(..) | COp::RemoveExt(_))
+    }
+    fn brief(&self) -> String {
+        match self {
+            COp::Add(d) => format!("add(uname={},codes={:?},grp={},slot={})", d.uname, d.codes, d.grp, d.slot),
+            COp::Update(id, p) => format!("update({id},{:?})", p.iter().map(|(k, v)| format!("{k}={}", { let s = format!("{v:?}"); if s.len() > 40 { s[..40].to_string() } else { s } })).collect::<Vec<_>>()),
+            other => format!("{other:?}"),
+        }
+    }
+    fn kind(&self) -> &'static str {
+        match self {
+            COp::Add(_) => "add",
+            COp::Update(..) => "update",
+            COp::Remove(_) => "remove",
+            COp::Get(_) => "get",
+            COp::Query(_) => "query",
+            COp::SaveExt(..) => "save_extension",
+            COp::RemoveExt(_) => "remove_extension",
+            COp::Flush => "flush",
+            COp::Compact => "compact",
+        }
+    }
+}
+
+#[derive(Clone, Debug, PartialEq)]
+enum CRes {
+    Added(u64),
+    Updated(Box<FDoc>),
+    Removed(Option<Box<FDoc>>),
+    Got(Option<Box<FDoc>>),
+    Ids(Vec<u64>),
+    Ext(Option<u64>),
+    Done,
+    NotFound,
+    Conflict,
+    Err(String),
+}
+
+fn classify(e: &anda_db::error::DBError) -> CRes {
+    match e {
+        anda_db::error::DBError::NotFound { .. } => CRes::NotFound,
+        anda_db::error::DBError::AlreadyExists { .. } => CRes::Conflict,
+        other => {
+            let s = format!("{other:?}");
+            if s.contains("AlreadyExists") { CRes::Conflict } else { CRes::Err(s) }
+        }
+    }
+}
+
+struct Config {
+    cfg: Cfg,
+    n_initial: u64,
+    ops: Vec<COp>,
+    label: String,
+}
+
+fn gen_config(rng: &mut Rng, stripe: bool) -> Config {
+    let cfg = Cfg { cache: rng.chance(2, 3), compress: *rng.pick(&[0, 3]), bucket: *rng.pick(&[64usize, 1 << 20]) };
+    let n_initial = if stripe { 130 } else { 4 };
+    let n = 2 + rng.usize(3);
+    let hot: Vec<u64> = if stripe { vec![1, 129, 2] } else { vec![1, 1, 2, 3] };
+    let mut ops = vec![];
+    let mut tag = 0;
+    for _ in 0..n {
+        tag += 1;
+        let id = *rng.pick(&hot);
+        let op = match rng.weighted(&[18, 30, 16, 12, 4, 5, 3, 8, 4]) {
+            0 => {
+                let mut d = gen_doc(rng, 6);
+                d.uname = format!("new{tag}-{}", rng.below(2)); // two adds may collide on purpose
+                d.codes = vec![];
+                d.grp = "gn".into();
+                d.slot = 500 + tag;
+                COp::Add(d)
+            }
+            1 => {
+                let mut p = gen_patch(rng, 6, None);
+                p.remove("codes");
+                p.remove("grp");
+                p.remove("slot");
+                if let Some(Fv::Text(u)) = p.get("uname").cloned() {
+                    p.insert("uname".into(), Fv::Text(format!("upd-{u}")));
+                }
+                p.insert("body".into(), Fv::Text(format!("kernel lemon tag{tag}")));
+                COp::Update(id, p)
+            }
+            2 => COp::Remove(id),
+            3 => COp::Get(id),
+            4 => COp::Query("kernel".into()),
+            5 => COp::SaveExt(format!("k{}", rng.below(2)), 100 + tag),
+            6 => COp::RemoveExt(format!("k{}", rng.below(2))),
+            7 => COp::Flush,
+            _ => COp::Compact,
+        };
+        ops.push(op);
+    }
+    let mut kinds: Vec<&str> = ops.iter().map(|o| o.kind()).collect();
+    kinds.sort_unstable();
+    Config { cfg, n_initial, label: format!("{}{}", if stripe { "stripe:" } else { "" }, kinds.join("+")), ops }
+}
+
+struct Outcome {
+    results: Vec<CRes>,
+    call: Vec<usize>,
+    ret: Vec<usize>,
+    trace: Vec<usize>,
+    /// (position in trace, reopened documents) for every flush that returned
+    snapshots: Vec<(usize, Result<BTreeMap<u64, FDoc>, String>)>,
+    initial: Model,
+}
+
+async fn run_schedule(c: &Config, chooser: &mut dyn Chooser, st: &mut Stats) -> Option<(Outcome, Arc<anda_db::collection::Collection>)> {
+    let store = RecStore::new();
+    store.set_record_reads(false);
+    let mut d = match Driver::start(Arc::new(store.clone()), c.cfg, IndexSet::ALL).await {
+        Ok(d) => d,
+        Err(e) => {
+            st.violation("C05/setup_failed", json!(format!("{e:?}")));
+            return None;
+        }
+    };
+    let mut seed = vcore::Rng::new(7 + c.n_initial);
+    for i in 0..c.n_initial {
+        let mut doc = gen_doc(&mut seed, 1000);
+        doc.uname = format!("init{i}");
+        doc.codes = vec![format!("ci{i}")];
+        doc.grp = "gi".into();
+        doc.slot = i;
+        doc.body = "kernel apple".into();
+        if !matches!(d.step(&Op::Add(doc), st).await, Step::Applied) {
+            st.inconclusive("harness: initial add rejected");
+            return None;
+        }
+    }
+    let _ = d.step(&Op::SaveExt("k0".into(), 1), st).await;
+    let _ = d.step(&Op::Flush, st).await;
+    let initial = d.model.clone();
+    store.set_gate(true);
+    let coll = d.coll.clone();
+    let mut ex: ManualExec<'_, CRes> = ManualExec::new();
+    for op in &c.ops {
+        let coll = coll.clone();
+        let op = op.clone();
+        ex.spawn(async move {
+            match op {
+                COp::Add(doc) => coll.add_from(&doc).await.map(CRes::Added).unwrap_or_else(|e| classify(&e)),
+                COp::Update(id, p) => match coll.update(id, p).await {
+                    Ok(doc) => match doc.try_into::<FDoc>() {
+                        Ok(f) => CRes::Updated(Box::new(f)),
+                        Err(e) => CRes::Err(format!("returned document does not decode: {e:?}")),
+                    },
+                    Err(e) => classify(&e),
+                },
+                COp::Remove(id) => match coll.remove(id).await {
+                    Ok(Some(doc)) => match doc.try_into::<FDoc>() {
+                        Ok(f) => CRes::Removed(Some(Box::new(f))),
+                        Err(e) => CRes::Err(format!("returned document does not decode: {e:?}")),
+                    },
+                    Ok(None) => CRes::Removed(None),
+                    Err(e) => classify(&e),
+                },
+                COp::Get(id) => match coll.get_as::<FDoc>(id).await {
+                    Ok(f) => CRes::Got(Some(Box::new(f))),
+                    Err(anda_db::error::DBError::NotFound { .. }) => CRes::Got(None),
+                    Err(e) => CRes::Err(format!("{e:?}")),
+                },
+                COp::Query(word) => {
+                    let q = anda_db::query::Query { search: Some(anda_db::query::Search { text: Some(word), ..Default::default() }),
+                        filter: Some(Filter::Field(("age".into(), RangeQuery::Ge(Fv::U64(0))))), limit: Some(50) };
+                    coll.search_ids(q).await.map(CRes::Ids).unwrap_or_else(|e| CRes::Err(format!("{e:?}")))
+                }
+                COp::SaveExt(k, v) => coll.save_extension(k, Fv::U64(v)).await.map(|_| CRes::Done).unwrap_or_else(|e| CRes::Err(format!("{e:?}"))),
+                COp::RemoveExt(k) => match coll.remove_extension(&k).await {
+                    Ok(v) => CRes::Ext(v.and_then(|v| match v { Fv::U64(x) => Some(x), _ => None })),
+                    Err(e) => CRes::Err(format!("{e:?}")),
+                },
+                COp::Flush => coll.flush(anda_db::unix_ms()).await.map(|_| CRes::Done).unwrap_or_else(|e| CRes::Err(format!("{e:?}"))),
+                COp::Compact => coll.compact_btree_index(&["uname"]).await.map(|_| CRes::Done).unwrap_or_else(|e| CRes::Err(format!("{e:?}"))),
+            }
+        });
+    }
+    let n = c.ops.len();
+    let mut ret = vec![usize::MAX; n];
+    let mut snaps: Vec<(usize, Arc<object_store::memory::InMemory>)> = vec![];
+    let ops = &c.ops;
+    let store2 = store.clone();
+    let r = ex.run(chooser, 6000, |ex, i, done| {
+        if done {
+            ret[i] = ex.trace.len() - 1;
+            if matches!(ops[i], COp::Flush) && matches!(ex.result(i), Some(CRes::Done)) {
+                // "pull the plug" at the instant the flush returned
+                store2.set_gate(false);
+                let snap = drive(store2.snapshot());
+                store2.set_gate(true);
+                snaps.push((ex.trace.len() - 1, snap));
+            }
+        }
+    });
+    store.set_gate(false);
+    let trace = ex.trace.clone();
+    match r {
+        Ok(()) => {}
+        Err(Stuck::Deadlock(t)) => {
+            st.violation("C05/deadlock", json!({"blocked_tasks": t, "schedule": trace, "ops": c.ops.iter().map(|o| o.brief()).collect::<Vec<_>>()}));
+            return None;
+        }
+        Err(Stuck::StepCap) => {
+            st.inconclusive("C05: step cap reached");
+            return None;
+        }
+    }
+    let mut call = vec![usize::MAX; n];
+    for (pos, t) in trace.iter().enumerate() {
+        if call[*t] == usize::MAX {
+            call[*t] = pos;
+        }
+    }
+    let results: Vec<CRes> = (0..n).map(|i| ex.take_result(i).unwrap()).collect();
+    drop(ex);
+    // reopen every snapshot (cold, no gate) and read its documents
+    let mut snapshots = vec![];
+    for (pos, snap) in snaps {
+        let r = async {
+            let db = connect(snap.clone(), &c.cfg).await.map_err(|e| format!("connect: {e:?}"))?;
+            let col = open_coll(&db, IndexSet::ALL).await.map_err(|e| format!("open: {e:?}"))?;
+            let mut docs = BTreeMap::new();
+            for id in col.ids() {
+                let d = col.get_as::<FDoc>(id).await.map_err(|e| format!("get({id}): {e:?}"))?;
+                docs.insert(id, d);
+            }
+            Ok::<_, String>((docs, col))
+        }
+        .await;
+        match r {
+            Ok((docs, col)) => {
+                // the persisted state passes the index<->document audit as well
+                let m = Model { docs: docs.clone(), ext: Default::default() };
+                let ctx = || json!({"schedule": trace, "ops": c.ops.iter().map(|o| o.brief()).collect::<Vec<_>>(), "snapshot_at": pos});
+                audit(&col, &m, IndexSet::ALL, st, &AuditCtx { sig: "C05/flush_snapshot_audit", ctx: &ctx }).await;
+                st.count("flush_snapshots_reopened");
+                snapshots.push((pos, Ok(docs)));
+            }
+            Err(e) => snapshots.push((pos, Err(e))),
+        }
+    }
+    Some((Outcome { results, call, ret, trace, snapshots, initial }, coll))
+}
+
+/// Applies mutation `i` to `m` in the sequential model; None when the recorded result cannot be
+/// produced in this state.
+fn apply_seq(m: &mut Model, handed: &mut BTreeSet<u64>, op: &COp, res: &CRes) -> Option<()> {
+    match (op, res) {
+        (COp::Add(d), CRes::Added(id)) => {
+            if m.conflicts(0, d, IndexSet::ALL) || m.docs.contains_key(id) || !handed.insert(*id) {
+                return None;
+            }
+            let mut n = d.clone();
+            n._id = *id;
+            m.docs.insert(*id, n);
+            Some(())
+        }
+        (COp::Add(d), CRes::Conflict) => m.conflicts(0, d, IndexSet::ALL).then_some(()),
+        (COp::Update(id, p), CRes::Updated(got)) => {
+            let cur = m.docs.get(id)?;
+            let mut n = apply_patch(cur, p)?;
+            n._id = *id;
+            if m.conflicts(*id, &n, IndexSet::ALL) || **got != n {
+                return None;
+            }
+            m.docs.insert(*id, n);
+            Some(())
+        }
+        (COp::Update(id, _), CRes::NotFound) => (!m.docs.contains_key(id)).then_some(()),
+        (COp::Update(id, p), CRes::Conflict) => {
+            let cur = m.docs.get(id)?;
+            let n = apply_patch(cur, p)?;
+            m.conflicts(*id, &n, IndexSet::ALL).then_some(())
+        }
+        (COp::Remove(id), CRes::Removed(Some(got))) => {
+            let cur = m.docs.get(id)?;
+            if **got != *cur {
+                return None;
+            }
+            m.docs.remove(id);
+            Some(())
+        }
+        (COp::Remove(id), CRes::Removed(None)) => (!m.docs.contains_key(id)).then_some(()),
+        (COp::SaveExt(k, v), CRes::Done) => {
+            m.ext.insert(k.clone(), *v);
+            Some(())
+        }
+        (COp::RemoveExt(k), CRes::Ext(old)) => {
+            if m.ext.get(k).copied() != *old {
+                return None;
+            }
+            m.ext.remove(k);
+            Some(())
+        }
+        _ => None,
+    }
+}
+
+/// All total orders of the mutations that respect real time (and `extra` precedence pairs) and
+/// explain every return value. Returns the orders with the model after each step.
+fn linearizations(c: &Config, o: &Outcome, extra: &[(usize, usize)], limit: usize) -> Vec<(Vec<usize>, Vec<Model>)> {
+    let muts: Vec<usize> = (0..c.ops.len()).filter(|i| c.ops[*i].is_mutation()).collect();
+    let mut out = vec![];
+    fn rec(c: &Config, o: &Outcome, extra: &[(usize, usize)], muts: &[usize], done: &mut Vec<usize>, states: &mut Vec<Model>, handed: &BTreeSet<u64>,
+           out: &mut Vec<(Vec<usize>, Vec<Model>)>, limit: usize) {
+        if out.len() >= limit {
+            return;
+        }
+        if done.len() == muts.len() {
+            out.push((done.clone(), states.clone()));
+            return;
+        }
+        for &i in muts {
+            if done.contains(&i) {
+                continue;
+            }
+            // real-time order: nothing still pending may have returned before i was called
+            if muts.iter().any(|&j| j != i && !done.contains(&j) && o.ret[j] < o.call[i]) {
+                continue;
+            }
+            if extra.iter().any(|&(a, b)| b == i && !done.contains(&a)) {
+                continue;
+            }
+            let mut m = states.last().unwrap().clone();
+            let mut h = handed.clone();
+            if apply_seq(&mut m, &mut h, &c.ops[i], &o.results[i]).is_some() {
+                done.push(i);
+                states.push(m);
+                rec(c, o, extra, muts, done, states, &h, out, limit);
+                states.pop();
+                done.pop();
+            }
+        }
+    }
+    let handed: BTreeSet<u64> = o.initial.docs.keys().copied().collect();
+    rec(c, o, extra, &muts, &mut vec![], &mut vec![o.initial.clone()], &handed, &mut out, limit);
+    out
+}
+
+async fn judge(c: &Config, o: &Outcome, coll: &anda_db::collection::Collection, mode: &str, st: &mut Stats) -> bool {
+    let ctx = || {
+        json!({"mode": mode, "cfg": format!("{:?}", c.cfg), "schedule": o.trace,
+               "history": (0..c.ops.len()).map(|i| format!("t{i} [{}..{}] {} -> {}", o.call[i], o.ret[i], c.ops[i].brief(), { let s = format!("{:?}", o.results[i]); if s.len() > 300 { format!("{}..", &s[..300]) } else { s } })).collect::<Vec<_>>()})
+    };
+    for (i, r) in o.results.iter().enumerate() {
+        if let CRes::Err(e) = r {
+            st.violation(format!("C05/unexpected_error/{}", c.ops[i].kind()), json!({"error": e, "context": ctx()}));
+            return false;
+        }
+    }
+    st.count("oracle_linearizability_searches");
+    let lins = linearizations(c, o, &[], 64);
+    if lins.is_empty() {
+        st.violation("C05/not_linearizable", json!({"context": ctx()}));
+        return false;
+    }
+    if lins.len() > 1 {
+        st.count("histories_with_several_valid_orders");
+    }
+    // 3. convergence: the final state equals the result of a valid order
+    let finals: Vec<&Model> = lins.iter().map(|(_, s)| s.last().unwrap()).collect();
+    let first_final = finals[0];
+    let all_same = finals.iter().all(|m| m.docs == first_final.docs);
+    if !all_same {
+        st.count("valid_orders_disagree_on_final_state");
+    }
+    let live: BTreeMap<u64, FDoc> = {
+        let mut m = BTreeMap::new();
+        for id in coll.ids() {
+            if let Ok(d) = coll.get_as::<FDoc>(id).await {
+                m.insert(id, d);
+            }
+        }
+        m
+    };
+    let Some(fin) = finals.iter().find(|m| m.docs == live) else {
+        st.violation("C05/final_state_matches_no_valid_order", json!({"live_documents": format!("{live:?}"), "expected_one_of": finals.iter().map(|m| format!("{:?}", m.docs)).collect::<Vec<_>>(), "context": ctx()}));
+        return false;
+    };
+    if !audit(coll, fin, IndexSet::ALL, st, &AuditCtx { sig: "C05/final_audit", ctx: &ctx }).await {
+        return false;
+    }
+    // 2. reads that overlap writers
+    for (i, op) in c.ops.iter().enumerate() {
+        if let (COp::Get(id), CRes::Got(got)) = (op, &o.results[i]) {
+            st.count("oracle_overlapping_reads");
+            let mut ok = false;
+            for (order, states) in &lins {
+                // versions of the document along this order
+                let mut versions: Vec<(Option<&FDoc>, usize, usize)> = vec![(states[0].docs.get(id), 0, 0)]; // (value, call, ret) of producer
+                for (k, &mi) in order.iter().enumerate() {
+                    let v = states[k + 1].docs.get(id);
+                    if v != versions.last().unwrap().0 {
+                        versions.push((v, o.call[mi], o.ret[mi]));
+                    }
+                }
+                // not older than the last write that returned before the read was called, not
+                // newer than the last write that was called before the read returned
+                let lo = versions.iter().rposition(|(_, _, r)| *r < o.call[i] || *r == 0).unwrap_or(0);
+                let hi = versions.iter().rposition(|(_, cl, _)| *cl < o.ret[i] || *cl == 0).unwrap_or(0);
+                if versions[lo..=hi.max(lo)].iter().any(|(v, _, _)| v.cloned() == got.as_deref().cloned()) {
+                    ok = true;
+                    break;
+                }
+            }
+            if !ok {
+                st.violation("C05/read_returned_unexplained_document", json!({"read": i, "got": format!("{got:?}"), "context": ctx()}));
+                return false;
+            }
+        }
+    }
+    // 4. what a concurrent flush persisted
+    for (pos, snap) in &o.snapshots {
+        st.count("oracle_flush_snapshots");
+        match snap {
+            Err(e) => {
+                st.violation("C05/flush_snapshot_does_not_reopen", json!({"error": e, "snapshot_at": pos, "context": ctx()}));
+                return false;
+            }
+            Ok(docs) => {
+                let muts: Vec<usize> = (0..c.ops.len()).filter(|i| c.ops[*i].is_mutation()).collect();
+                let inc: Vec<usize> = muts.iter().copied().filter(|i| o.ret[*i] < *pos).collect();
+                let exc: Vec<usize> = muts.iter().copied().filter(|i| o.ret[*i] > *pos).collect();
+                let extra: Vec<(usize, usize)> = inc.iter().flat_map(|a| exc.iter().map(move |b| (*a, *b))).collect();
+                let lins2 = linearizations(c, o, &extra, 64);
+                let okp = lins2.iter().any(|(_, states)| states[inc.len()].docs == *docs);
+                if !okp {
+                    st.violation("C05/flush_persisted_state_is_no_prefix", json!({"snapshot_at": pos, "persisted": format!("{docs:?}"),
+                        "mutations_returned_before": inc, "candidates": lins2.iter().map(|(_, s)| format!("{:?}", s[inc.len()].docs.keys().collect::<Vec<_>>())).collect::<Vec<_>>(), "context": ctx()}));
+                    return false;
+                }
+            }
+        }
+    }
+    true
+}
+
+fn case(case: u64, rng: &mut Rng, st: &mut Stats, budget: u64) {
+    let stripe = case % 8 == 7;
+    let c = gen_config(rng, stripe);
+    let budget = if stripe { (budget / 6).max(10) } else { budget };
+    block_on(async {
+        let mut dfs = DfsChooser::new();
+        let mut runs = 0u64;
+        let mut exhausted = false;
+        loop {
+            dfs.begin_run();
+            let Some((o, coll)) = run_schedule(&c, &mut dfs, st).await else { return };
+            runs += 1;
+            st.eval();
+            st.count("schedules_run");
+            st.set("distinct_schedules", vcore::hash_debug(&o.trace) ^ case.wrapping_mul(0x9e3779b97f4a7c15));
+            st.max("max_schedule_len", o.trace.len() as u64);
+            // polls that ended at a lock wait (the task was polled again later without having
+            // passed a backend call) show that gate / doc-lock windows were actually hit
+            if !judge(&c, &o, &coll, "S-enum", st).await {
+                return;
+            }
+            if !dfs.next_run() {
+                exhausted = true;
+                break;
+            }
+            if runs >= budget {
+                break;
+            }
+        }
+        st.count(if exhausted { "schedule_spaces_exhausted" } else { "schedule_spaces_truncated" });
+        if !exhausted {
+            let mut rc = RandChooser(rng.fork());
+            for _ in 0..budget / 2 {
+                let Some((o, coll)) = run_schedule(&c, &mut rc, st).await else { return };
+                st.eval();
+                st.count("schedules_run");
+                st.set("distinct_schedules", vcore::hash_debug(&o.trace) ^ case.wrapping_mul(0x9e3779b97f4a7c15));
+                if !judge(&c, &o, &coll, "S-rand", st).await {
+                    return;
+                }
+            }
+        }
+        st.count(&format!("config:{}", if stripe { "stripe" } else { "plain" }));
+        st.set("configurations", vcore::fnv_str(&c.label));
+        st.distinct(vcore::fnv_str(&format!("{:?}", c.ops.iter().map(|o| o.brief()).collect::<Vec<_>>())));
+        for o in &c.ops {
+            st.count(&format!("cop:{}", o.kind()));
+        }
+        st.sample(|| json!({"configuration": c.label, "ops": c.ops.iter().map(|o| o.brief()).collect::<Vec<_>>(), "schedules": runs, "exhaustive": exhausted}));
+    });
+}
+
+/// S-mt: many operations from several tasks on a multi-thread runtime; convergence only.
+fn stress_case(case: u64, rng: &mut Rng, st: &mut Stats, tasks: usize, ops_per_task: usize) {
+    let cfg = Cfg { cache: true, compress: 0, bucket: 256 };
+    let rt = tokio::runtime::Builder::new_multi_thread().worker_threads(4).enable_time().build().unwrap();
+    let seed = rng.next_u64();
+    rt.block_on(async {
+        let store = RecStore::new();
+        store.set_record_reads(false);
+        let Ok(db) = connect(Arc::new(store.clone()), &cfg).await else { return };
+        let Ok(coll) = open_coll(&db, IndexSet::ALL).await else { return };
+        let mut hs = vec![];
+        for t in 0..tasks {
+            let coll = coll.clone();
+            hs.push(tokio::spawn(async move {
+                // each task owns its documents: the final state is determined per task
+                let mut rng = vcore::Rng::derive(seed, t as u64);
+                let mut mine: BTreeMap<u64, FDoc> = BTreeMap::new();
+                let mut errs = vec![];
+                for i in 0..ops_per_task {
+                    match rng.below(10) {
+                        0..=4 => {
+                            let mut d = gen_doc(&mut rng, 1_000_000);
+                            d.uname = format!("t{t}-{i}");
+                            d.codes = vec![];
+                            d.grp = format!("g{t}");
+                            d.slot = i as u64;
+                            match coll.add_from(&d).await {
+                                Ok(id) => {
+                                    d._id = id;
+                                    if mine.insert(id, d).is_some() { errs.push(format!("id {id} handed out twice")); }
+                                }
+                                Err(e) => errs.push(format!("add: {e:?}")),
+                            }
+                        }
+                        5..=7 if !mine.is_empty() => {
+                            let id = *mine.keys().nth(rng.usize(mine.len())).unwrap();
+                            let mut p = Patch::new();
+                            p.insert("age".into(), Fv::U64(rng.below(100)));
+                            p.insert("body".into(), Fv::Text(format!("lemon island r{}", rng.below(50))));
+                            match coll.update(id, p.clone()).await {
+                                Ok(_) => {
+                                    let n = apply_patch(&mine[&id], &p).unwrap();
+                                    mine.insert(id, n);
+                                }
+                                Err(e) => errs.push(format!("update: {e:?}")),
+                            }
+                        }
+                        8 if !mine.is_empty() => {
+                            let id = *mine.keys().nth(rng.usize(mine.len())).unwrap();
+                            match coll.remove(id).await {
+                                Ok(Some(_)) => { mine.remove(&id); }
+                                other => errs.push(format!("remove({id}): {:?}", other.map(|o| o.is_some()))),
+                            }
+                        }
+                        _ => {
+                            if t == 0 && i % 16 == 9 {
+                                if let Err(e) = coll.flush(anda_db::unix_ms()).await { errs.push(format!("flush: {e:?}")); }
+                            } else if let Some(id) = mine.keys().next().copied() {
+                                match coll.get_as::<FDoc>(id).await {
+                                    Ok(d) if d == mine[&id] => {}
+                                    other => errs.push(format!("get({id}) = {other:?}")),
+                                }
+                            }
+                        }
+                    }
+                    if rng.chance(1, 4) { tokio::task::yield_now().await; }
+                }
+                (mine, errs)
+            }));
+        }
+        let mut model = Model::default();
+        for h in hs {
+            match h.await {
+                Ok((mine, errs)) => {
+                    if !errs.is_empty() {
+                        st.violation("C05/stress/operation_failed_or_wrong", json!({"errors": errs.iter().take(5).collect::<Vec<_>>(), "case": case}));
+                        return;
+                    }
+                    for (id, d) in mine {
+                        if model.docs.insert(id, d).is_some() {
+                            st.violation("C05/stress/id_handed_out_twice", json!({"id": id, "case": case}));
+                            return;
+                        }
+                    }
+                }
+                Err(e) => {
+                    st.inconclusive(format!("stress task join error: {e}"));
+                    return;
+                }
+            }
+        }
+        st.eval();
+        st.count("stress_runs");
+        st.add("stress_ops", (tasks * ops_per_task) as u64);
+        let ctx = || json!({"mode": "S-mt", "case": case, "tasks": tasks, "ops_per_task": ops_per_task});
+        audit(&coll, &model, IndexSet::ALL, st, &AuditCtx { sig: "C05/stress/final_audit", ctx: &ctx }).await;
+        let _ = db.close().await;
+    });
+}
+
+fn main() {
+    let mut run = Run::from_args(
+        "C05",
+        "exploration",
+        "one evaluation = one schedule (sequence of which task performs its next backend call) of one configuration of 2-4 \
+         concurrent operations, judged by the four oracles; configurations are distinct by their operation set; every \
+         configuration is non-trivial (at least two concurrent operations over shared state)",
+    );
+    run.assume("scheduling points are the backend calls and tokio lock waits of the async code (every await of the collection is one of them); preemption inside synchronous sections is sampled by the multi-thread stress runs");
+    run.assume("queries that overlap writers are run as load only; the property constrains overlapping reads of documents (get), which are checked against the version window of a valid order");
+    run.assume("at the instant a flush returns no mutation body is running (flush holds the exclusive gate until its completing poll), so the snapshot must equal the state after exactly the mutations that had returned");
+    let t = run.tier;
+    if run.wants("sched") {
+        run.parallel("configs", t.pick(120, 6000), 0.8, |c, rng, st| case(c, rng, st, t.pick(120, 1200)));
+    }
+    if run.wants("stress") {
+        run.threads = 4;
+        run.parallel("stress", t.pick(8, 200), 0.9, |c, rng, st| stress_case(c, rng, st, 8, t.pick(120, 400)));
+    }
+    run.floor("schedules_run", 3000);
+    run.floor("oracle_linearizability_searches", 3000);
+    run.floor("oracle_overlapping_reads", 200);
+    run.floor("oracle_flush_snapshots", 200);
+    run.floor("config:stripe", 5);
+    run.floor_set("configurations", 30);
+    for k in ["add", "update", "remove", "get", "flush", "save_extension", "compact"] {
+        run.floor(&format!("cop:{k}"), 10);
+    }
+    run.floor("stress_runs", 4);
+    run.finish();
+}
+
+#[allow(dead_code)]
+fn _unused(_: Value) {}
